@@ -38,9 +38,6 @@ theorem depsClosed_of_ids (h : ∀ a ∈ s.ids, ClosedUnder s.structCh (s.struct
     rw [this, hch] at hc
     cases hc
 
-def closedB : Bool :=
-  s.ids.all fun a => (s.structDeps a).all fun b => (s.structCh b).all fun c => (s.structDeps a).contains c
-
 theorem closedB_sound (h : s.closedB = true) : s.DepsClosed := by
   apply s.depsClosed_of_ids
   intro a ha b hb c hc
@@ -51,18 +48,6 @@ theorem closedB_sound (h : s.closedB = true) : s.DepsClosed := by
   exact List.contains_iff_mem.1 h3
 
 end RankSrc
-
-/-- per-rank part of the check -/
-def rankGoodB (s : RankSrc) (r : Nat) : Bool :=
-  s.closedB && decide s.ids.Nodup && decide ((s.recvsOf r).map (·.1)).Nodup
-  && (s.sendsOf r).all (fun cd =>
-      (s.structDeps cd.2).all (fun a => !s.isRecv a || (s.valueDeps cd.2).contains a)
-      && !s.isRecv cd.2)
-
-/-- executable sufficient condition for `GoodProgram` -/
-def checkGood (p : Program) : Bool :=
-  (match diagnose p.commGraph with | .ok _ => true | .error _ => false)
-  && (List.range p.length).all fun r => rankGoodB (p.rank r) r
 
 theorem rank_out_of_range {p : Program} {r : Nat} (h : ¬ r < p.length) : p.rank r = ⟨[], []⟩ := by
   unfold Program.rank
